@@ -259,9 +259,10 @@ def run(ctx):
         c.tlc_mc("Timers", "MC_Timers.tla", "MC_quick.cfg" if quick else "MC_thorough.cfg", coverage=False, timeout=2400, workers=half)
 
     def j_mc2(c):
-        c.tlc_mc("Timers", "MC_Timers.tla", "MC_shared.cfg" if quick else "MC_shared4.cfg", coverage=False, timeout=2400, workers=2)
+        c.tlc_mc("Timers", "MC_Timers.tla", "MC_shared.cfg" if quick else "MC_shared4.cfg", coverage=False, timeout=2400,
+                 workers=2 if quick else half)
         if not quick:
-            c.tlc_mc("Timers", "MC_Timers.tla", "MC_ops2.cfg", coverage=False, timeout=2400, workers=2)
+            c.tlc_mc("Timers", "MC_Timers.tla", "MC_ops2.cfg", coverage=False, timeout=2400, workers=half)
         for variant, inv in AS_FOUND:
             c.tlc_mc("Timers", "MC_Timers.tla", "AF_%s.cfg" % variant, expect=inv, coverage=False, timeout=300, workers=2)
 
